@@ -143,6 +143,18 @@ Theorem C10_oracle_accepts_model :
     caller_known c -> distinct_interfaces ex -> judge ex c out l (observe ex c out l) = VOk.
 Proof. exact oracle_sound_s. Qed.
 
+(* What a call gets does not depend on the calls the handler served before it
+   (on the same or other objects, of the same or other classes): a sequence
+   of calls is handled call by call, each as a function of the export table,
+   the call and the user code's behaviour at that moment.  Trivial for the
+   model, which carries no state from call to call - it names what the
+   sequence cases of the correspondence run check of the library's per-class
+   and per-function memoisation (_dbusIfaceCache, _dbusCaller). *)
+Theorem C10_calls_independent :
+  forall ex before c beh after,
+    nth_error (handle_all ex (before ++ (c, beh) :: after)) (length before) = Some (handle ex beh c).
+Proof. exact calls_independent. Qed.
+
 (* The error names on the replies of the tree under test (regenerated table,
    probed on every run) are those of the specification and of the model. *)
 Theorem C10_names_from_source :
